@@ -107,7 +107,7 @@ func at(src []byte, key string) string {
 
 func TestGeneratedPrograms(t *testing.T) {
 	harness.Check(t, "programs", 25000, 800000, func(rt *rapid.T) {
-		v := rapid.SampledFrom([]px.Ver{px.V74, px.V74, {7, 0}, px.V56}).Draw(rt, "version")
+		v := rapid.SampledFrom([]px.Ver{px.V74, px.V74, {Major: 7, Minor: 0}, px.V56}).Draw(rt, "version")
 		b := &builder{rt: rt, want: map[string]expectation{}, php7: !v.IsPHP5(), feats: map[string]int{}, used: map[string]bool{}}
 		b.program()
 		src := []byte(b.b.String())
